@@ -153,6 +153,25 @@ def gen(rng, tier):
             mu(m)
             cases.append({"op": "validate", "input": m, "stream": "validate/" + name.split("@")[0]})
             cases.append({"op": "typed_parse", "input": m, "stream": "typed/" + name.split("@")[0]})
+        # the same instance with every function made variable-free (constant / empty linear / absent quadratic part), as
+        # after fixing all variables: the uniqueness rules do not depend on any id being used
+        m0 = copy.deepcopy(inst)
+        consts = [["const", f64(1.5)], ["lin", [[], f64(0.0)]], ["quad", [[], [], [], []]], ["poly", []], ["const", f64(0.0)]]
+        m0[1] = [consts[b % len(consts)]]
+        for j, c in enumerate(m0[3]):
+            c[2] = [consts[(b + j + 1) % len(consts)]]
+        for j, r in enumerate(m0[4]):
+            r[0][0][2] = [consts[(b + j + 2) % len(consts)]]
+        m0[5] = []
+        m0[7] = []
+        for op in ("validate", "typed_parse"):
+            cases.append({"op": op, "input": m0, "stream": op + "/valid-no-ids-used"})
+        for name, mu in mutations(m0):
+            if name.split("@")[0] in ("dup-var", "c-dup", "r-dup", "r-dup-active"):
+                m = copy.deepcopy(m0)
+                mu(m)
+                cases.append({"op": "validate", "input": m, "stream": "validate/no-ids-used/" + name.split("@")[0]})
+                cases.append({"op": "typed_parse", "input": m, "stream": "typed/no-ids-used/" + name.split("@")[0]})
         # pairs
         npairs = 25 if tier == "quick" else 60
         for _ in range(npairs):
